@@ -114,7 +114,7 @@ CHECKS = {
              'included) in both simulators.',
         technique='Lean 4 theorems over generated aggregation + hand store and engine models (window decomposition, invariant, write protocol, frame for the strategy layer); correspondence; every-hook session oracle',
         ref='4 (C07), 8.2',
-        note='Not yet theorems: warm-up injection; that gcd of the route timeframes divides each of them is assumed in runSkipN_all (evidence.unproved).'),
+        note='Not yet theorems: warm-up injection; runSkipN_all / runSkipN_gcd assume that all input arrays of the session have one length (evidence.unproved).'),
     'C08': dict(
         text='Proof over the definition of split_candle REGENERATED from the source on every run: it equals the cut of the '
              'continuous O-L-H-C / O-H-L-C path at the first visit of the price (full functional spec), hence valid parts, '
